@@ -291,6 +291,7 @@ class Ctx:
         self.exact = {}            # input name -> exact rational value of each shadow sample (pinned-sample queries)
         self.fvs = {}              # input name -> float value of each shadow sample
         self.mask = _np.ones(K_SAMPLES, dtype=bool)   # samples known to satisfy the path so far
+        self.mask_opt = _np.ones(K_SAMPLES, dtype=bool)
         global SAMPLE_RNG
         SAMPLE_RNG = _np.random.default_rng(12345 + 7 * getattr(self, 'sample_seed', 0))
         self.trig_reset()
@@ -468,12 +469,14 @@ def _fop(op, *xs):
 
 
 def mask_and(fv):
-    """restrict the set of samples known to satisfy the path"""
+    """restrict the set of samples known to satisfy the path (mask), and the set not known to leave it (mask_opt: a condition
+    without sample values leaves it alone; used only to pick candidate inputs for model search, which are replayed anyway)"""
     if fv is None:
         CTX.mask = _np.zeros(K_SAMPLES, dtype=bool)
     else:
         with _np.errstate(all='ignore'):
             CTX.mask = CTX.mask & _np.asarray(fv, dtype=bool)
+            CTX.mask_opt = CTX.mask_opt & _np.asarray(fv, dtype=bool)
 
 
 # ----------------------------------------------------------------------------------------------
@@ -1326,8 +1329,10 @@ def choose(n, tag='c'):
     for i in range(n - 1):
         b = z3.Bool(f"choice_{tag}_{k}_{i}")
         keep = CTX.mask.copy()
+        keep_opt = CTX.mask_opt.copy()
         r = CTX.branch(b)
         CTX.mask = keep                     # a free choice does not constrain the inputs
+        CTX.mask_opt = keep_opt
         if r:
             return i
     return n - 1
